@@ -12,21 +12,22 @@ Definition C18_valid_full : Prop := forall fl n, gql_name n = true ->
 Definition C18_injective_full : Prop := forall fl a b, gql_name a = true -> gql_name b = true ->
   process_name fl a = process_name fl b -> a = b.
 
-(* ---- proved, with the finding class F18 as the explicit boolean guard g_c18 ---- *)
+(* ---- proved.  After the fix "trim before the keyword / reserved checks" the keyword and reserved
+        laws hold for EVERY GraphQL name; validity as an identifier still needs the guard g_c18
+        (a digit exposed by trimming / snake-casing, the remaining part of finding F18) ---- *)
 Theorem C18_valid_identifier_partial : forall fl n, gql_name n = true -> g_c18 fl n = true ->
   py_identifier (process_name fl n) = true.
 Proof. exact process_valid_identifier. Qed.
 Print Assumptions C18_valid_identifier_partial.
 
-Theorem C18_not_keyword_partial : forall fl n, gql_name n = true -> g_c18 fl n = true ->
-  iskeyword (process_name fl n) = false.
+Theorem C18_not_keyword : forall fl n, gql_name n = true -> iskeyword (process_name fl n) = false.
 Proof. exact process_not_keyword. Qed.
-Print Assumptions C18_not_keyword_partial.
+Print Assumptions C18_not_keyword.
 
-Theorem C18_not_reserved_partial : forall fl n, f_reserved fl = true -> gql_name n = true ->
-  g_c18 fl n = true -> mem_chars (process_name fl n) pydantic_reserved = false.
+Theorem C18_not_reserved : forall fl n, f_reserved fl = true -> gql_name n = true ->
+  mem_chars (process_name fl n) pydantic_reserved = false.
 Proof. exact process_not_reserved. Qed.
-Print Assumptions C18_not_reserved_partial.
+Print Assumptions C18_not_reserved.
 
 (* every letter and digit kept, in order (case-folded); unguarded, any reserved list *)
 Theorem C18_alnum_preserved : forall R fl n, all_us n = false ->
@@ -48,6 +49,17 @@ Theorem C18_wire_name_kept : forall fl n, wire_name (field_names fl n) = n.
 Proof. exact field_wire_name. Qed.
 Print Assumptions C18_wire_name_kept.
 
+(* enum values: the member name differs from the value only by the keyword suffix, is never a keyword,
+   and two values of one enum collide only in the shape  kw / kw_  (part of finding F18-silent-merge) *)
+Theorem C18_enum_member_collision : forall a b, enum_member a = enum_member b -> a <> b ->
+  (iskeyword a = true /\ b = (a ++ ["_"%char])%list) \/ (iskeyword b = true /\ a = (b ++ ["_"%char])%list).
+Proof. exact enum_member_collision. Qed.
+Print Assumptions C18_enum_member_collision.
+
+Theorem C18_enum_member_not_keyword : forall v, iskeyword (enum_member v) = false.
+Proof. exact enum_member_not_keyword. Qed.
+Print Assumptions C18_enum_member_not_keyword.
+
 (* ---- refutations of the full statements on the faithful model (finding F18) ---- *)
 Definition FL (a b c : bool) := {| f_snake := a; f_trim := b; f_reserved := c |}.
 
@@ -55,13 +67,12 @@ Theorem C18_valid_refuted_digit : exists fl n, gql_name n = true /\
   py_identifier (process_name fl n) = false.
 Proof. exists (FL true true true), (s2l "_1"). vm_compute. auto. Qed.
 
-Theorem C18_valid_refuted_keyword : exists fl n, gql_name n = true /\
-  iskeyword (process_name fl n) = true.
-Proof. exists (FL false true true), (s2l "_class"). vm_compute. auto. Qed.
-
-Theorem C18_valid_refuted_reserved : exists fl n, f_reserved fl = true /\ gql_name n = true /\
-  mem_chars (process_name fl n) pydantic_reserved = true.
-Proof. exists (FL false true true), (s2l "_copy"). vm_compute. auto. Qed.
+(* regression of the repaired part of F18: trimming no longer exposes a keyword / reserved name *)
+Example C18_trim_then_suffix :
+  l2s (process_name (FL false true true) (s2l "_class")) = "class_" /\
+  l2s (process_name (FL false true true) (s2l "_copy")) = "copy_" /\
+  l2s (process_name (FL false true true) (s2l "__")) = "underscore_named_field_".
+Proof. vm_compute. repeat split. Qed.
 
 Theorem C18_full_valid_refuted : ~ C18_valid_full.
 Proof.
